@@ -414,6 +414,16 @@ pub fn classify_sql(kind: &str, msg: &str, facts: &SqlFacts) -> String {
     if near.as_deref() == Some("OFFSET") {
         return "sql:skip-without-first".to_string();
     }
+    if msg.contains("misuse of aggregate") {
+        return "sql:reference-filter-in-aggregate-query".to_string();
+    }
+    let syntax = msg.contains("syntax error") || msg.contains("unrecognized token");
+    if syntax && facts.alias_candidates.iter().any(|a| !a.is_empty() && a.chars().all(|c| c == '$')) {
+        return "sql:alias-made-of-dots".to_string();
+    }
+    if syntax && facts.alias_candidates.iter().any(|a| a.chars().next().map(|c| c.is_ascii_digit()).unwrap_or(false)) && !facts.json_default_selected {
+        return "sql:digit-first-identifier-as-table-alias".to_string();
+    }
     if msg.contains("JSON cannot hold BLOB values") {
         return "sql:aggregate-on-binary-system-field".to_string();
     }
@@ -615,6 +625,20 @@ impl MemWorld {
         match out.verdict {
             Verdict::Ok => Ok(w),
             _ => Err(out),
+        }
+    }
+
+    /// removes every row (the schema, the model and the indexes stay): lets a world be reused
+    pub fn reset_data(&mut self) {
+        for sql in [
+            "DELETE FROM _node",
+            "DELETE FROM _edge",
+            "DELETE FROM _node_deletion_log",
+            "DELETE FROM _edge_deletion_log",
+            "DELETE FROM _daily_log",
+            "INSERT INTO _node_fts(_node_fts) VALUES('delete-all')",
+        ] {
+            let _ = self.conn.execute(sql, []);
         }
     }
 
@@ -1073,36 +1097,105 @@ pub fn fuzz_parse_texts(data: &[u8]) -> (Vec<Finding>, FuzzStats) {
     let mut sections = data.split(|b| *b == 0).take(9);
     let model_text = lossy(sections.next().unwrap_or(b""));
     stats.texts += 1;
-    // the model text alone, then a world built from it
-    let pm = parse_model_text(&model_text);
-    if pm.passed_grammar {
-        stats.passed_grammar += 1;
+    // worlds are cached by model text and emptied before each input (building one costs more
+    // than everything else)
+    thread_local! {
+        static WORLDS: std::cell::RefCell<Vec<(String, Option<MemWorld>)>> = std::cell::RefCell::new(Vec::new());
     }
-    drain_panics("parse.model", &model_text.chars().take(300).collect::<String>(), &mut out);
-    let mut world = if pm.accepted {
-        match MemWorld::new(&model_text, true) {
-            Ok(w) => Some(w),
-            Err(o) => {
-                if let Verdict::SqlErr(m) = &o.verdict {
-                    out.push(Finding {
-                        signature: classify_sql("model", m, &facts_from_text(&model_text, "")),
-                        detail: format!("{} | model: {}", m, model_text.chars().take(600).collect::<String>()),
-                    });
-                }
-                None
-            }
+    let cached = WORLDS.with(|w| {
+        let mut w = w.borrow_mut();
+        match w.iter().position(|e| e.0 == model_text) {
+            Some(i) => Some(w.remove(i).1),
+            None => None,
         }
-    } else {
-        None
+    });
+    let mut world: Option<MemWorld> = match cached {
+        Some(w) => w,
+        None => {
+            // the model text alone, then a world built from it
+            let pm = parse_model_text(&model_text);
+            if pm.passed_grammar {
+                stats.passed_grammar += 1;
+            }
+            drain_panics("parse.model", &model_text.chars().take(300).collect::<String>(), &mut out);
+            let w = if pm.accepted {
+                match MemWorld::new(&model_text, true) {
+                    Ok(w) => Some(w),
+                    Err(o) => {
+                        if let Verdict::SqlErr(m) = &o.verdict {
+                            out.push(Finding {
+                                signature: classify_sql("model", m, &facts_from_text(&model_text, "")),
+                                detail: format!("{} | model: {}", m, model_text.chars().take(600).collect::<String>()),
+                            });
+                        }
+                        None
+                    }
+                }
+            } else {
+                None
+            };
+            drain_panics("parse.model", "model setup", &mut out);
+            w
+        }
     };
-    drain_panics("parse.model", "model setup", &mut out);
+    let own_model = world.is_some();
     if world.is_none() {
-        world = MemWorld::new(FUZZ_DEFAULT_MODEL, true).ok();
+        let cached_default = WORLDS.with(|w| {
+            let mut w = w.borrow_mut();
+            match w.iter().position(|e| e.0 == FUZZ_DEFAULT_MODEL) {
+                Some(i) => w.remove(i).1,
+                None => None,
+            }
+        });
+        world = match cached_default {
+            Some(w) => Some(w),
+            None => MemWorld::new(FUZZ_DEFAULT_MODEL, true).ok(),
+        };
     }
     let mut world = match world {
         Some(w) => w,
         None => return (out, stats),
     };
+    world.reset_data();
+    let (f, st) = fuzz_requests(&mut world, sections, stats);
+    out.extend(f);
+    let stats = st;
+    // back into the cache (a refused model is remembered as such)
+    WORLDS.with(|w| {
+        let mut w = w.borrow_mut();
+        if own_model {
+            w.push((model_text.clone(), Some(world)));
+        } else {
+            w.push((model_text.clone(), None));
+            w.push((FUZZ_DEFAULT_MODEL.to_string(), Some(world)));
+        }
+        while w.len() > 12 {
+            w.remove(0);
+        }
+    });
+    (out, stats)
+}
+
+/// nesting depth of braces and brackets (the targets leave deep nesting to the bomb cases of the
+/// check: a stack overflow cannot be tolerated in-process)
+pub fn nesting_depth(text: &str) -> usize {
+    let mut d = 0usize;
+    let mut max = 0usize;
+    for c in text.chars() {
+        match c {
+            '{' | '[' | '(' => {
+                d += 1;
+                max = max.max(d);
+            }
+            '}' | ']' | ')' => d = d.saturating_sub(1),
+            _ => {}
+        }
+    }
+    max
+}
+
+fn fuzz_requests<'a>(world: &mut MemWorld, sections: impl Iterator<Item = &'a [u8]>, mut stats: FuzzStats) -> (Vec<Finding>, FuzzStats) {
+    let mut out = Vec::new();
     let mut fixed_params: Option<Vec<(String, PVal)>> = None;
     let mut k = 0u64;
     for sec in sections {
@@ -1131,6 +1224,9 @@ pub fn fuzz_parse_texts(data: &[u8]) -> (Vec<Finding>, FuzzStats) {
                 }
                 fixed_params = Some(v);
             }
+            continue;
+        }
+        if nesting_depth(&text) > 9 {
             continue;
         }
         let kinds: &[char] = if lead.starts_with("query") {
